@@ -110,6 +110,11 @@ func c09History(c *rt.Ctx, fsType string, h int) {
 		o := g.Next()
 		hist = append(hist, o)
 		res := env.Exec(o)
+		if fatalRes(res) {
+			// a panic or self-deadlock inside avfs is C07's business; the instance may hold leaked locks: stop here
+			c.Rep.Count("histories_ended_by_panic_or_deadlock", 1)
+			return
+		}
 		after := fsx.Snap(base, "/", snapOpt).String()
 		kind := o.K
 		if o.K == "OpenFile" || o.K == "OpenWriteClose" {
@@ -159,6 +164,8 @@ func c09History(c *rt.Ctx, fsType string, h int) {
 	c.Rep.Count("complete_histories", 1)
 	c.Rep.Sample(map[string]any{"fs": fsType, "via_sub": viaSub, "last_calls": opStrings(hist[len(hist)-5:])}, 3)
 }
+
+func fatalRes(r fsx.Res) bool { return r.Err == "panic" || r.Err == "deadlock" }
 
 func diffText(a, b string) []string {
 	la, lb := strings.Split(a, "\n"), strings.Split(b, "\n")
